@@ -83,7 +83,7 @@ def judge(req, impl, f, prev, hi=None, i=None):
 
 
 SPEC = dict(
-    prop='C06', lean_mod='Rivia.Props.C06,Rivia.Props.C06T', gen=gen, judge=judge, judge_ctx=True,
+    prop='C06', lean_mod='Rivia.Props.C06,Rivia.Props.C06T,Rivia.Props.C06R', gen=gen, judge=judge, judge_ctx=True,
     foreign_classes=('chmod_zero', 'listing_includes_links', 'sym_kind_specific_clauses', 'sym_malformed', 'moved_link_rel_stale'),
     rule='content-heavy random histories over a handful of files: write_all / append_all / write_lines / append_line(s) / handle write+append with flushes and drops at arbitrary points / copy / move_p / reads, '
          'data from {empty, ASCII, multi-byte, invalid UTF-8, embedded \\n and \\r\\n, 2 KiB}; judge = byte-vector reference (TreeFs node data): write replaces, append extends, line helpers add one newline per line, '
